@@ -11,6 +11,7 @@ which copies whole blocks.
 -/
 import InfluxVerif.Props.C09
 import InfluxVerif.Gen.C18
+import InfluxVerif.Model.Meta
 
 namespace InfluxVerif.Compact
 open InfluxVerif.Values
@@ -182,3 +183,63 @@ example : fileCopies 1000 5000 1000 5000 = 1 ∧ fileCopies 1000 5000 0 9000 = 1
     ∧ fileCopies 1000 5000 6000 7000 = 0 := by decide
 
 end InfluxVerif.Compact
+
+/-! ### the metadata step of a shard copy: the destination becomes an owner, nobody stops being one -/
+
+namespace InfluxVerif.Meta
+
+theorem insertOwner_go_mem (node x : Nat) (os : List Nat) :
+    x ∈ insertOwner.go node os ↔ x = node ∨ x ∈ os := by
+  induction os with
+  | nil => simp [insertOwner.go]
+  | cons o os ih =>
+    unfold insertOwner.go
+    split
+    · simp
+    · simp only [List.mem_cons, ih]
+      constructor
+      · rintro (h | h | h)
+        · exact Or.inr (Or.inl h)
+        · exact Or.inl h
+        · exact Or.inr (Or.inr h)
+      · rintro (h | h | h)
+        · exact Or.inr (Or.inl h)
+        · exact Or.inl h
+        · exact Or.inr (Or.inr h)
+
+/-- **After `CopyShardOwner` the owners are exactly the old owners and the destination**: for
+every owner list (sorted or not) and every node id, lower or higher than the present ones. -/
+theorem copy_owner_adds_only (node x : Nat) (owners : List Nat) :
+    x ∈ insertOwner node owners ↔ x = node ∨ x ∈ owners := by
+  unfold insertOwner
+  split
+  · rename_i h
+    have hn : node ∈ owners := by simpa using h
+    constructor
+    · exact Or.inr
+    · rintro (h | h)
+      · exact h ▸ hn
+      · exact h
+  · exact insertOwner_go_mem node x owners
+
+theorem insertOwner_go_length (node : Nat) (os : List Nat) :
+    (insertOwner.go node os).length = os.length + 1 := by
+  induction os with
+  | nil => simp [insertOwner.go]
+  | cons o os ih =>
+    unfold insertOwner.go
+    split <;> simp [ih]
+
+/-- no owner is counted twice or dropped: the list grows by one exactly when the node was not
+an owner -/
+theorem copy_owner_length (node : Nat) (owners : List Nat) :
+    (insertOwner node owners).length = if owners.contains node then owners.length else owners.length + 1 := by
+  unfold insertOwner
+  split
+  · rfl
+  · exact insertOwner_go_length node owners
+
+example : insertOwner 1 [2] = [1, 2] ∧ insertOwner 3 [2, 5] = [2, 3, 5] ∧ insertOwner 9 [2, 5] = [2, 5, 9] ∧ insertOwner 5 [2, 5] = [2, 5] := by
+  decide
+
+end InfluxVerif.Meta
